@@ -142,11 +142,11 @@ theorem splitter_result {F : Type} (ops : FOps F) (hirr : OracleOK ops) {N A K H
     (h0 : Inv N A K HH s0 [] [] 0) (hd0 : Dyn s0 [] []) (syms : List (Nat × Nat))
     (hs : ∀ p ∈ syms, p.1 < K ∧ p.2 < A) (hn : syms.length ≤ N) :
     ∃ s1 s rb slack, feed ops s0 syms = .ok s1 ∧ finishBlock ops s1 true = .ok s ∧ Inv N A K HH s rb [] slack ∧ rb ≠ [] ∧
-      flat rb = syms ∧ s.histosSize = s.numTypes ∧ s.splitNumBlocks = rb.length := by
-  obtain ⟨s1, rb1, pend1, a1, a2, a3, a4, _⟩ := feed_inv ops hirr syms s0 [] [] h0 hd0 hs (by simpa [doneCount] using hn)
+      flat rb = syms ∧ s.histosSize = s.numTypes ∧ s.splitNumBlocks = rb.length ∧ s.minBlockSize = s0.minBlockSize := by
+  obtain ⟨s1, rb1, pend1, a1, a2, a3, a4, a5⟩ := feed_inv ops hirr syms s0 [] [] h0 hd0 hs (by simpa [doneCount] using hn)
   have htb : s1.targetBlockSize ≤ 2 ^ 24 := by have := a3.tb; have := a2.total; have := a2.bound; omega
-  obtain ⟨s, rb, e1, e2, e3, e4, _, _, _, _, _, _, _, e12⟩ := finishBlock_inv ops hirr true a2 a3.bs a3.hh a3.mt htb
-  refine ⟨s1, s, rb, _, a1, e1, e2, e3, ?_, (e12 rfl).1, (e12 rfl).2⟩
+  obtain ⟨s, rb, e1, e2, e3, e4, _, _, e7, _, _, _, _, e12⟩ := finishBlock_inv ops hirr true a2 a3.bs a3.hh a3.mt htb
+  refine ⟨s1, s, rb, _, a1, e1, e2, e3, ?_, (e12 rfl).1, (e12 rfl).2, by rw [e7, a5]⟩
   rw [e4, a4]; simp [flat]
 
 end BV.Greedy
